@@ -1,5 +1,5 @@
 // C31: the independent engine — V8 (node) executing the very same .wasm bytes.
-//   node node_engine.js exec <wasm>                    stdin: protocol lines of gen/instmod.py; one output line each
+//   node node_engine.js exec <wasm> <growwasm>         stdin: protocol lines of gen/instmod.py; one output line each
 //   node node_engine.js run  <wasm> <fset.json> <main> runs main with a mirror of internal/wazero/js.go's host module;
 //                                                      prints "<status> <hex stdout> <hex stderr>"
 'use strict';
@@ -40,11 +40,12 @@ function toArg(h, c) {
   return BigInt.asIntN(64, BigInt('0x' + h));
 }
 
-function execLoop(wasmFile) {
+function execLoop(wasmFile, growFile) {
   const bytes = fs.readFileSync(wasmFile);
   const mod = new WebAssembly.Module(bytes);
-  let inst = new WebAssembly.Instance(mod, {});
-  const fresh = () => { inst = new WebAssembly.Instance(mod, {}); };
+  const growMod = new WebAssembly.Module(fs.readFileSync(growFile));
+  const mainInst = new WebAssembly.Instance(mod, {});
+  let inst = mainInst;
   const call = (name, sig, hexargs) => {
     const [ps, rs] = sig.split(':');
     const f = inst.exports[name];
@@ -77,22 +78,23 @@ function execLoop(wasmFile) {
           res = call(f[1], f[2], f.slice(3)) + ' ' + memHash();
         }
       } else if (f[0] === 'g') {
-        fresh();
+        inst = new WebAssembly.Instance(growMod, {});    // fresh instance of the small grow module per line
         res = 'g';
         for (const d of f.slice(1)) {
           res += ' [' + call('memory.grow', 'i:i', [d]);
           const sz = call('memory.size', ':i', []);
           res += ' ' + sz;
           const pages = parseInt(sz.split(' ')[1], 16);
+          const last = (((pages * PAGE - 1) % 4294967296) + 4294967296) % 4294967296;
           if (pages > 0) {
-            res += ' ' + call('i32.store8@0', 'ii:', [(pages * PAGE - 1).toString(16), 'ab']);
-            res += ' ' + call('i32.load8_u@0', 'i:i', [(pages * PAGE - 1).toString(16)]);
+            res += ' ' + call('i32.store8@0', 'ii:', [last.toString(16), 'ab']);
+            res += ' ' + call('i32.load8_u@0', 'i:i', [last.toString(16)]);
           }
-          res += ' ' + call('i32.store8@0', 'ii:', [(pages * PAGE).toString(16), 'cd']);
-          res += ' ' + call('i32.load8_u@1', 'i:i', [(pages * PAGE - 1).toString(16)]);
+          res += ' ' + call('i32.store8@0', 'ii:', [((pages * PAGE) % 4294967296).toString(16), 'cd']);
+          res += ' ' + call('i32.load8_u@1', 'i:i', [last.toString(16)]);
           res += ' ' + memHash() + ']';
         }
-        fresh();
+        inst = mainInst;
       }
     } catch (e) {
       res = 'PANIC ' + String(e).replace(/\s+/g, ' ');
@@ -103,7 +105,7 @@ function execLoop(wasmFile) {
 }
 
 // ---------------------------------------------------------------------------------------------
-// Go's fmt.Fprint for float32 / float64 (%v = strconv 'g' with shortest digits, exponent threshold 21)
+// Go's fmt.Fprint for float32 / float64 (%v = strconv 'g' with shortest digits; %e form when exp < -4 || exp >= 6)
 function goFloat(v, is32) {
   if (Number.isNaN(v)) return 'NaN';
   if (v === Infinity) return '+Inf';
@@ -118,7 +120,14 @@ function goFloat(v, is32) {
     s = a.toExponential();                       // shortest round-trip for doubles
   } else {
     for (let p = 0; p < 17; p++) {
-      s = a.toExponential(p);
+      s = a.toExponential(p);                    // rounds half up; Go's shortest takes the even digit on an exact decimal tie
+      const full = a.toExponential(60);
+      const rest = full.slice(p === 0 ? 1 : p + 2, full.indexOf('e'));
+      const tie = /^5?0*$/.test(p === 0 ? rest.replace('.', '') : rest) && (p === 0 ? rest.replace('.', '') : rest)[0] === '5';
+      if (tie) {
+        const m0 = /^([\d.]*)(\d)(e.*)$/.exec(s);
+        if (m0 && (m0[2].charCodeAt(0) - 48) % 2 === 1) s = m0[1] + String.fromCharCode(m0[2].charCodeAt(0) - 1) + m0[3];
+      }
       if (Math.fround(parseFloat(s)) === a) break;
     }
   }
@@ -128,7 +137,7 @@ function goFloat(v, is32) {
   exp10 = parseInt(m[3], 10);                    // value = d.ddd * 10^exp10
   const x = exp10;                               // Go: exp := digs.dp - 1
   let body;
-  if (x < -4 || x >= 21) {                       // %e form
+  if (x < -4 || x >= 6) {                        // %e form (strconv 'g', shortest: eprec = 6)
     body = digits[0] + (digits.length > 1 ? '.' + digits.slice(1) : '') + 'e' + (x < 0 ? '-' : '+') + String(Math.abs(x)).padStart(2, '0');
   } else if (x >= 0) {                           // %f form
     if (digits.length <= x + 1) body = digits + '0'.repeat(x + 1 - digits.length);
@@ -212,7 +221,7 @@ function runMain(wasmFile, fsetFile, mainFunc) {
 }
 
 const mode = process.argv[2];
-if (mode === 'exec') execLoop(process.argv[3]);
+if (mode === 'exec') execLoop(process.argv[3], process.argv[4]);
 else if (mode === 'run') runMain(process.argv[3], process.argv[4], process.argv[5]);
 else if (mode === 'gofloat') {
   // self-test helper: gofloat <32|64> <hex bits>...
